@@ -38,8 +38,15 @@ def _case(draw):
     table = draw(progs.tables())
     n = draw(st.integers(1, 4))
     members = []
+    # sometimes every member's scan ends inside the file (all members finish before the end)
+    bounded_all = draw(st.sampled_from([False, False, True]))
     for i in range(n):
         scan = draw(progs.scans(table))
+        if bounded_all and scan.endswith("*"):
+            lo = progs.hdr_pos(table) + 1
+            hi = max(lo, len(table["records"]) - 2)
+            a = draw(st.integers(lo, hi))
+            scan = f"{a}-{draw(st.integers(a, hi))}" if draw(st.booleans()) else draw(progs.gap_scans(table))
         prog = draw(progs.programs(table, kinds=("b", "b", "b", "assign", "when", "se", "print", "last"), max_comps=4, depth=2))
         modes = []
         if draw(st.integers(0, 4)) == 2:
